@@ -21,10 +21,10 @@ RULE = ("case = a history of <= 30 steps over named variables drawn by Hypothesi
         "formula(nested [(n, fragment)] lists/tuples), formula(Formula); operators v=f+g, v=n*f with n in "
         "{0, 1, integers, decimals and floats in [1e-6, 1e6]}, f+=g; operands chosen by index, f+f, f+=f included). "
         "Oracle: a Fraction model per variable updated by the algebra; after every step the new/changed variable "
-        "has atoms == model (exact where the library's count is an int, rel 1e-12 otherwise; an atom with count 0 counts as absent), "
+        "(and, again, each operand of the step) has atoms == model (exact where the library's count is an int, rel 1e-12 otherwise; an atom with count 0 counts as absent), "
         "mass == sum n*(m(base atom) - charge*electron_mass) (rel 1e-12), charge == sum n*charge "
         "(abs 1e-12*sum|n*charge|), mass_fraction[a] == n*m/mass (rel 1e-12) with sum 1 (abs 1e-12) when mass > 0, "
-        "molecular_mass == mass/N_A; a snapshot (structure by atom identity, density, name) of every variable and "
+        "molecular_mass == mass/N_A, f.hill.atoms == model, str(f) stable; a snapshot (structure by atom identity, density, name) of every variable and "
         "of every dict/sequence passed to a constructor is compared after the step: only the left operand of += "
         "may differ. All variables are re-checked at the end. non-trivial = the history has n*f with n not in {0,1} "
         "on a formula of more than one fragment AND a += on a variable that was an operand of an earlier + or *; "
@@ -34,8 +34,8 @@ ASSUMPTIONS = [
     "Avogadro number from periodictable.constants; an ion's mass is recomputed from its base atom, not Ion.mass",
     "operations that would exceed 250 structure leaves or push a count outside [1e-30, 1e30] are skipped "
     "(floating point overflow is not part of the property)",
-    "a variable whose structure, density and name are unchanged by a step is not re-evaluated after that step "
-    "(atoms/mass/charge are functions of the structure); all variables are evaluated at the end of the history",
+    "bystander variables (neither result nor operand of a step) whose structure, density and name are unchanged "
+    "are not re-evaluated after that step; all variables are evaluated at the end of the history",
     "f += g is only required to give f the atoms of old f plus g; identity of the object and the nesting are not judged",
 ]
 
@@ -130,6 +130,21 @@ def check_var(var, case, where):
             raise Violation("c02:mass_fraction", "%s: mass fraction for absent atoms %r" % (where, extra), case)
         if abs(total - 1.0) > 1e-12:
             raise Violation("c02:mass_fraction:sum", "%s: mass fractions sum to %r" % (where, total), case)
+    # the printed form and the Hill form are read too (a value remembered on the instance by any of these
+    # readers and carried along by copy(self) would show up in the next operation's result); the Hill form is
+    # formula({atom: count}) of the atoms and must have the model's composition
+    text = str(f)
+    h = f.hill
+    hgot = {}
+    for atom, n in h.atoms.items():
+        hgot[atom_key(atom)] = hgot.get(atom_key(atom), 0) + n
+    for k in sorted(set(hgot) | set(comp)):
+        g, w = hgot.get(k, 0), comp.get(k, Fraction(0))
+        if not (g == w or close(float(g), float(w))):
+            raise Violation("c02:hill:atoms", "%s: count of %r in f.hill is %r, sum over the parts is %s (formula %s, hill %s)"
+                            % (where, k, g, float(w), _s(f), _s(h)), case)
+    if str(f) != text:
+        raise Violation("c02:str:unstable", "%s: str(f) changed from %r to %r by reading .hill" % (where, text, str(f)), case)
 
 
 def _s(f):
@@ -173,6 +188,10 @@ def check_history(ctx, history):
                                 "%s: the constructor changed its argument" % where, case)
         target = step.new if step.new is not None else step.changed
         check_var(vars_[target], case, where)
+        # the operands are read again after the step (atoms, mass, charge, mass fractions, str, hill)
+        for j in step.operands:
+            if j != target:
+                check_var(vars_[j], case, where + ": operand %d after the step" % j)
         if step.kind == "copy":
             src, dst = vars_[step.operands[0]].f, vars_[target].f
             want_name = step.op[2] if step.op[2] else src.name
